@@ -627,3 +627,8 @@ SPECS["C19"]["level_text"] += ("; the scalar cdef helpers every output sample of
                                "(no wrap-around), out-of-range inputs land on the limit of their side, in-range inputs are rounded / cut toward zero")
 SPECS["C19"]["not_covered"] = ["iir.pyx kernels (_c_process, _c_chickensys_process: circular buffers, memory views)", "_c_chicken_sys_convolve_valid (typed loops over memory views)", "filter presets' coefficients"]
 SPECS["C19"].setdefault("assumptions", []).append("C doubles read as exact reals in the saturation lemmas")
+
+# C20: the per-zone array slicer hands the evaluated bounds on unchanged (zero included)
+SPECS["C20"]["contracts"] += ["smpl_extract.util.constructs:SlicingGeneral._realize"]
+SPECS["C20"]["level_text"] += "; SlicingGeneral._realize passes the evaluated count / start / stop / step on as they are - a stop of 0 (keygroup without active zones) stays 0"
+SPECS["C20"]["not_covered"] = ["PaddedGeneral (which slots count as non-empty) as a contract; construct.Slicing itself", "the 300-line cap (truncated listings are skipped)"]
